@@ -87,7 +87,7 @@ fn main() {
 			iw.flush().unwrap();
 			let j = serde_json::json!({
 				"cases": st.cases, "exhaustive_scripts": st.exhaustive_scripts, "max_nodes": st.max_nodes,
-				"outcomes": st.outcomes, "nontrivial": st.nontrivial,
+				"outcomes": st.outcomes, "nontrivial": st.nontrivial, "value_cases": st.value_cases,
 				"oracle_failures": st.oracle_failures, "samples": st.samples,
 			});
 			println!("{j}");
